@@ -81,7 +81,7 @@ class _Exp_Spline_Factory(object):
 
   def build_spline(self, detach_point, attach_point, spline_defn):
       if spline_defn.parameters:
-        raise ConfigurationException("spline modifier 'exp_spline' middle potential form does not take any parameters. The following parameters were specified: {}".format(pot2.parameters))
+        raise ConfigurationException("spline modifier 'exp_spline' middle potential form does not take any parameters. The following parameters were specified: {}".format(spline_defn.parameters))
 
       spline = Exp_Spline(detach_point, attach_point)
       return spline
@@ -94,11 +94,11 @@ class _Buck4_Spline_Factory(object):
 
   def build_spline(self, detach_point, attach_point, spline_defn):
       if not len(spline_defn.parameters) == 1:
-        raise ConfigurationException("spline modifier with 'buck4_spline' requires a single parameter to define r_min. The following parameters were specified: {}".format(pot2.parameters))
+        raise ConfigurationException("spline modifier with 'buck4_spline' requires a single parameter to define r_min. The following parameters were specified: {}".format(spline_defn.parameters))
 
       r_min = spline_defn.parameters[0]
 
-      if not r_min < attach_point.r and not r_min > detach_point.r:
+      if not (detach_point.r < r_min < attach_point.r):
         raise ConfigurationException("spline modifier with 'buck4_spline' r_min parameter does not lie between detach and attach values ({} < r_min < {}). r_min = {}".format(
           detach_point.r, attach_point.r, r_min))
 
